@@ -58,8 +58,8 @@ def run_tool(backend, entry, outdir, extra=None):
 class RawModule:
     """a hand-written family member: bridge text with its own harnesses; only the mirror is generated"""
 
-    def __init__(self, name, path, harness_tags):
-        self.name, self.path, self.harness_tags = name, path, harness_tags
+    def __init__(self, name, path, harness_tags, needs_headers=True):
+        self.name, self.path, self.harness_tags, self.needs_headers = name, path, harness_tags, needs_headers
         self.order, self.methods, self.enums, self.structs, self.opaques = [], [], {}, {}, {}
 
     def emit_lib(self, harness_text="", mirror_text="", mirror_mod="m"):
@@ -71,7 +71,7 @@ RAW_MODULES = [RawModule("m0_holder", os.path.join(VERIF, "harness", "bridge_sup
                          {"c03_stored_fnmut_callback": ["C03", "C01"], "c03_stored_fn_callback": ["C03", "C01"]}),
                RawModule("m0_rawwrite", os.path.join(VERIF, "harness", "bridge_support", "m0_rawwrite.rs"),
                          {"c12_flush_with_value_return": ["C12"], "c12_flush_with_result_value_return": ["C12"],
-                          "c12_flush_plain": ["C12"], "c12_flush_result_unit": ["C12"]})]
+                          "c12_flush_plain": ["C12"], "c12_flush_result_unit": ["C12"]}, needs_headers=False)]
 
 
 def modules_for(tier_, seed_):
@@ -104,7 +104,30 @@ def prepare_module(mod, steps):
     lib = os.path.join(d, "src", "lib.rs")
     with open(lib, "w") as fh:
         fh.write(mod.emit_lib())
+    if isinstance(mod, RawModule) and not mod.needs_headers:
+        # harnesses of this member call the macro-exported functions directly; no declaration model is involved
+        gen = {"text": "", "mirror": "#[cfg(kani)]\npub mod m {}", "harnesses": dict(mod.harness_tags), "static": []}
+        with open(lib, "w") as fh:
+            fh.write(mod.emit_lib(mirror_text=gen["mirror"]))
+        return {"dir": d, "cm": cfront.CModel(), "gen": gen, "problems": []}
     ok, out = run_tool("c", lib, os.path.join(d, "c"))
+    fitted_out = []
+    attempts = 0
+    while not ok and not isinstance(mod, RawModule) and attempts < 4:
+        # The properties quantify over modules the tool *accepts*: what lowering rejects by name is dropped (and listed in
+        # evidence), so that a tightened acceptance rule does not turn into an alarm here (acceptance itself is C05's subject).
+        dm = set(re.findall(r"Lowering error in (\w+)::(\w+):", out))
+        dt = set(re.findall(r"Lowering error in (\w+):(?!:)", out))
+        if not dm and not dt:
+            break
+        fitted_out += sorted("%s::%s" % x for x in dm) + sorted(dt)
+        name = mod.name
+        mod = bridgegen.filtered(mod, drop_methods=dm, drop_types=dt)
+        mod.name = name
+        with open(lib, "w") as fh:
+            fh.write(mod.emit_lib())
+        ok, out = run_tool("c", lib, os.path.join(d, "c"))
+        attempts += 1
     if not ok:
         raise RuntimeError("diplomat-tool c rejected or crashed on generated module %s (generator bug or tool regression): %s" % (mod.name, out[-1500:]))
     cm, probs = cfront.load(os.path.join(d, "c"), d)
@@ -119,7 +142,7 @@ def prepare_module(mod, steps):
         fh.write(mod.emit_lib(harness_text=gen["text"], mirror_text=gen["mirror"]))
     with open(os.path.join(d, "harnesses.json"), "w") as fh:
         json.dump(gen["harnesses"], fh, indent=1)
-    return {"dir": d, "cm": cm, "gen": gen, "problems": probs}
+    return {"dir": d, "cm": cm, "gen": gen, "problems": probs, "mod": mod, "fitted_out": fitted_out}
 
 
 DIALECTS = {
@@ -264,7 +287,9 @@ def run_dialects(prop):
     programs = []
     n_static = 0
     ncorpus, probs = validate_fronts()
-    out["inconclusive"] += probs
+    # The checked-in outputs are a second opinion on the two text front ends, not an input of the check: what is verified
+    # is always generated on this run (and an unrecognised construct there *is* inconclusive). Problems here are recorded.
+    out["coverage"]["front_end_corpus_problems"] = probs[:20]
     for mod in mods:
         if mod.name == "m0_callbacks" or isinstance(mod, RawModule):
             continue
@@ -606,6 +631,7 @@ def run(prop):
             out["inconclusive"].append(str(e))
             continue
         gen = prep["gen"]
+        mod = prep.get("mod", mod)
         wanted = sorted(h for h, tags in gen["harnesses"].items() if prop in tags)
         for subject, message, tags in gen["static"]:
             if prop not in tags:
@@ -621,7 +647,7 @@ def run(prop):
             else:
                 out["violations"].append(("static:%s:%s" % (mod.name, subject), path, message))
         programs.append({"module": mod.name, "types": len(mod.order), "methods": len(mod.methods),
-                         "c_functions": len(prep["cm"].functions), "harnesses": len(wanted),
+                         "c_functions": len(prep["cm"].functions), "harnesses": len(wanted), "dropped_by_lowering": prep.get("fitted_out", []),
                          "sha": hashlib.sha256(open(os.path.join(prep["dir"], "src", "lib.rs"), "rb").read()).hexdigest()[:12]})
         if not wanted:
             continue
